@@ -39,7 +39,7 @@ from .. import types as T
 from ._h_A import (FactReach, Facts, nodes_of_stmts, nodes_for, kwarg, is_const, stmts_in,
                    attr_sites, obj_sites, MUTATING, inliner, expander, returns_of, bind_call,
                    call_arg, strip_wrappers, real_loops, Owners, atom_of, followed, enclosing_loops,
-                   innermost_loop)
+                   innermost_loop, need, opaque_parts)
 
 EXPLANATION = (
   "Decides that stored actions are self-contained and replayed the way they were applied. R1: "
@@ -127,6 +127,8 @@ def r1_codec(run, w):
   er = _rets(enc)
   for (r, v) in er:
     ew = _walker_call(w, v)
+    need(ew is not None or not opaque_parts(w, enc.fi, v),
+         "actions.encode_objects: cannot follow what is returned (`%s`)" % short(v))
     ok = ew is not None and ew[0] is not None and endswith(dotted(ew[0]), "encode_object") and \
         ew[1] is not None and text(ew[1]) == enc.fi.params()[0]
     run.ob(R1, enc.qualname, "return convert_recursive_in_action(encode_object, data)", "cell "
@@ -139,6 +141,8 @@ def r1_codec(run, w):
   dps = dec.fi.params()
   for (r, v) in dr:
     dw = _walker_call(w, v)
+    need(dw is not None or not opaque_parts(w, dec.fi, v),
+         "actions.decode_objects: cannot follow what is returned (`%s`)" % short(v))
     conv_ok = False
     if dw is not None and dw[0] is not None:
       if endswith(dotted(dw[0]), "decode_object"):
@@ -163,9 +167,8 @@ def r1_codec(run, w):
     raise AnalysisError("actions.get_action_repr: no value is returned")
   for (r, v) in rr:
     parts = _seq_parts(v)
-    if any(k == "spread" and isinstance(x, ast.Name) for (k, x) in parts):
-      raise AnalysisError("actions.get_action_repr: the list is built step by step (`%s`); its "
-                          "shape cannot be followed" % short(v))
+    need(not opaque_parts(w, gr.fi, v), "actions.get_action_repr: the list is built step by step "
+         "or by a helper (`%s`); its shape cannot be followed" % short(v))
     ok = len(parts) == 2 and parts[0][0] == "elt" and _is_type_name(parts[0][1], p) and \
         parts[1][0] == "spread" and isinstance(parts[1][1], ast.Call) and \
         endswith(dotted(parts[1][1].func), "encode_objects") and \
@@ -183,6 +186,8 @@ def r1_codec(run, w):
   for (r, v) in rets:
     ok = False
     wit = "returns `%s`" % short(v)
+    need(not opaque_parts(w, fr.fi, v), "actions.action_from_repr: cannot follow what is returned "
+         "(`%s`)" % short(v))
     if isinstance(v, ast.Call) and endswith(dotted(v.func), "decode_objects"):
       m = bind_call(v, dec.fi)
       inner = m.get(dps[0]) if m else None
@@ -204,25 +209,57 @@ def r1_codec(run, w):
   # action_types is the registry of the namedtuple action types
   mod = w.repo.module("actions")
   at = mod.assigns.get("action_types")
-  ok = at is not None
+  need(at is not None, "actions.action_types: the registry of action types vanished")
   run.ob(R1, "actions.action_types", "action_types registry exists",
-         "type names are resolved through the registry of action types", ok, nontrivial=False)
+         "type names are resolved through the registry of action types", True, nontrivial=False)
   # the walker converts exactly the cell values of value-carrying actions and recurses otherwise
   wk = w.fn("actions.convert_recursive_in_action")
   conv_p = wk.fi.params()[0]
-  inners = [fi for q, fi in w.repo.funcs.items()
-            if fi.parent is not None and fi.parent.qualname == wk.qualname]
-  ok = False
-  for fi in inners:
-    cs = calls_in(fi.node.body)
-    a = any(endswith(dotted(c.func), "convert_action_values") and
-            text(call_arg(c, w.repo.func("actions.convert_action_values"), "converter")
-                 or ast.Constant(value=None)) == conv_p for c in cs)
-    b = any(endswith(dotted(c.func), "convert_recursive_helper") and
-            text(call_arg(c, w.repo.func("actions.convert_recursive_helper"), "converter")
-                 or ast.Constant(value=None)) == fi.name for c in cs)
-    ok = ok or (a and b)
-  run.ob(R1, wk.qualname, "inner: tuple -> convert_action_values(converter, .) else recurse",
+  cavf = w.repo.func("actions.convert_action_values")
+  crhf = w.repo.func("actions.convert_recursive_helper")
+  # the walker's code: the function itself and the closures defined in it
+  scopes = [wk.fi] + [fi for q, fi in w.repo.funcs.items()
+                      if fi.parent is not None and fi.parent.qualname == wk.qualname]
+  def same_walker(e, scope):
+    """Does e denote "this walker, with the same converter", as the element converter handed to
+    the generic recursion: the closure itself, functools.partial(<walker>, converter), or
+    lambda v: <walker>(converter, v)?"""
+    if isinstance(e, ast.Name) and scope is not wk.fi and e.id == scope.name:
+      return True
+    if isinstance(e, ast.Call) and endswith(dotted(e.func), "partial") and len(e.args) == 2 and \
+        not e.keywords and text(e.args[0]) == wk.fi.name and text(e.args[1]) == conv_p:
+      return True
+    if isinstance(e, ast.Lambda) and len(e.args.args) == 1 and isinstance(e.body, ast.Call) and \
+        text(e.body.func) == wk.fi.name:
+      m = bind_call(e.body, wk.fi) or {}
+      ps = wk.fi.params()
+      return m.get(ps[0]) is not None and text(m[ps[0]]) == conv_p and \
+          m.get(ps[1]) is not None and text(m[ps[1]]) == e.args.args[0].arg
+    return False
+  leaf, rec = [], []
+  for sc in scopes:
+    own = [st for st in sc.node.body
+           if not isinstance(st, (ast.FunctionDef, ast.AsyncFunctionDef, ast.ClassDef))]
+    for c in calls_in(own, into_lambda=True):
+      if endswith(dotted(c.func), "convert_action_values"):
+        a = call_arg(c, cavf, cavf.params()[0])
+        leaf.append(a is not None and text(a) == conv_p)
+      elif endswith(dotted(c.func), "convert_recursive_helper"):
+        a = call_arg(c, crhf, crhf.params()[0])
+        rec.append(a is not None and same_walker(a, sc))
+  if not (leaf and rec):
+    # a leg is missing: a real defect only if the walker's code is fully visible
+    known = {"isinstance", "partial", "convert_action_values", "convert_recursive_helper",
+             wk.fi.name} | {sc.name for sc in scopes}
+    for sc in scopes:
+      for c in calls_in(sc.node.body, into_lambda=True):
+        nm = dotted(c.func)
+        need(nm is not None and nm.split(".")[-1] in known or nm in ("type", "list", "tuple"),
+             "actions.convert_recursive_in_action: the two legs of the cell-value walker "
+             "(convert_action_values for action tuples, convert_recursive_helper otherwise) were "
+             "not found and `%s` cannot be followed" % short(c))
+  ok = bool(leaf) and bool(rec) and all(leaf) and all(rec)
+  run.ob(R1, wk.qualname, "tuple -> convert_action_values(converter, .) else recurse with itself",
          "encode and decode visit the same positions: cell values of actions, nothing else", ok,
          fi=wk.fi)
 
@@ -268,8 +305,13 @@ def r2_forward_replay(run, w):
     body = nodes_of_stmts(cfg, lp.body)
     if any(n.id in body for (n, c) in gw_all):
       loops.append(lp)
-  ok = len(loops) == 1 and not loops[0].orelse and isinstance(loops[0].target, ast.Name) and \
-      _iter_source(ex.expand(loops[0].iter), p) is not None
+  need(len(loops) == 1 and not loops[0].orelse and isinstance(loops[0].target, ast.Name),
+       "ApplyDocActions: the loop applying the stored actions was not found (gateway calls in "
+       "%d loops)" % len(loops))
+  it0 = ex.expand(loops[0].iter)
+  need(_iter_source(it0, p) is not None or not opaque_parts(w, fn.fi, it0),
+       "ApplyDocActions: cannot follow what the replay loop iterates (`%s`)" % short(it0))
+  ok = _iter_source(it0, p) is not None
   run.ob(R2, fn.qualname, "for <action> in <the stored actions>",
          "the stored actions are replayed in the order they were recorded, all of them (no "
          "reversal, slice or filter)", ok, fi=fn.fi, node=loops[0] if loops else None,
@@ -298,6 +340,9 @@ def r2_forward_replay(run, w):
     a = ex.expand(a)
     if (kind == "raw" and _decoded_elem(a, var)) or (kind == "decoded" and text(a) == var):
       gws.add(n.id)
+    else:
+      need(not opaque_parts(w, fn.fi, a), "ApplyDocActions: cannot follow what is handed to the "
+           "gateway (`%s`)" % short(a))
   first = {m for h in head for m in cfg.normal_succ(h) if m in body}
   ok = bool(gws) and not (cfg.reach(first, removed=gws) & (head | {cfg.exit.id}))
   run.ob(R2, fn.qualname, "self._do_doc_action(actions.action_from_repr(<action>)) on every iteration",
@@ -445,6 +490,7 @@ def r3_exemptions(run, w):
                                   for nm in set(names) | {ex_norm})
     return False
   subs = set()
+  candidates = set()
   for n in cfg.nodes:
     if not (n.kind == "stmt" and isinstance(n.stmt, (ast.Assign, ast.AugAssign))):
       continue
@@ -452,11 +498,16 @@ def r3_exemptions(run, w):
     if isinstance(s_, ast.Assign):
       if not (len(s_.targets) == 1 and text(s_.targets[0]) == dv):
         continue
-      if is_subtraction(ex.expand(s_.value)):
+      v_ = ex.expand(s_.value)
+      if is_subtraction(v_):
         subs.add(n.id)
+      elif dv in names_loaded(v_) and (names_loaded(s_.value) & names or ex_norm in text(v_)):
+        candidates.add(n.id)      # combines the dirty rows with the exempt rows in some other way
   fr = Facts(cfg, set(names), ex=None)
   starts = [(m, {nm: True for nm in names}) for m in cfg.normal_succ(rd.id)]
   seen = fr.run(starts, stop=subs)
+  need(subs or candidates, "%s: no statement removing the exempt rows from the dirty rows was "
+       "recognised" % STEP)
   ok = bool(subs) and head not in seen and cfg.dominated_by(head, {rd.id})
   # and the subtracted value is not overwritten again before the scan
   reb = du.rebinders(dv)
@@ -486,25 +537,38 @@ def r3_exemptions(run, w):
     e = strip_wrappers(pex.expand(e), names=("set", "list", "tuple", "frozenset"))
     return text(e) == pps[2]
   upd, rem, sets_seen = set(), set(), 0
+  any_upd = any_rem = False       # an adding / removing operation on the node's set, whatever rows
   for n in pcfg.nodes:
     for c in calls_in(n.exprs):
-      if isinstance(c.func, ast.Attribute) and is_set_of_node(c.func.value) and len(c.args) == 1 \
-          and is_rows(c.args[0]):
+      if isinstance(c.func, ast.Attribute) and is_set_of_node(c.func.value) and len(c.args) == 1:
+        rows_ok = is_rows(c.args[0])
         if c.func.attr == "update":
-          upd.add(n.id)
+          any_upd = True
+          if rows_ok:
+            upd.add(n.id)
         elif c.func.attr == "difference_update":
-          rem.add(n.id)
-    if n.kind == "stmt" and isinstance(n.stmt, ast.AugAssign) and is_set_of_node(n.stmt.target) \
-        and is_rows(n.stmt.value):
+          any_rem = True
+          if rows_ok:
+            rem.add(n.id)
+    if n.kind == "stmt" and isinstance(n.stmt, ast.AugAssign) and is_set_of_node(n.stmt.target):
+      rows_ok = is_rows(n.stmt.value)
       if isinstance(n.stmt.op, ast.BitOr):
-        upd.add(n.id)
+        any_upd = True
+        if rows_ok:
+          upd.add(n.id)
       elif isinstance(n.stmt.op, ast.Sub):
-        rem.add(n.id)
+        any_rem = True
+        if rows_ok:
+          rem.add(n.id)
     for c in calls_in(n.exprs):
       if is_set_of_node(c):
         sets_seen += 1
+  need(sets_seen >= 1, "prevent_recalc: the per-node set of exempt rows "
+       "(self.%s.setdefault(node, set())) was not found" % PMAP)
   run.ob(R3, pr.qualname, "self.%s.setdefault(node, set())" % PMAP, "exemptions are kept per node",
-         sets_seen >= 1, fi=pr.fi, nontrivial=False)
+         True, fi=pr.fi, nontrivial=False)
+  need(any_upd and any_rem, "prevent_recalc: the operations adding / removing rows of the node's "
+       "exempt set were not both recognised")
   frp = Facts(pcfg, {pps[3]}, ex=pex)
   t = frp.run([(pcfg.entry.id, {pps[3]: True})], stop=upd)
   f = frp.run([(pcfg.entry.id, {pps[3]: False})], stop=rem)
@@ -537,7 +601,8 @@ def r3_exemptions(run, w):
   # after a user action was applied, no clear happens before the recalculation that follows the
   # last one (new iterations excluded: they belong to the next user action)
   after = acfg.reach_after(applies, removed=first)
-  ok = bool(clears) and not (after & clears) and bool(after & recalc)
+  need(clears, "apply_user_actions: self.%s.clear() not found" % PMAP)
+  ok = not (after & clears) and bool(after & recalc)
   run.ob(R3, au.qualname, "no self.%s.clear() between _apply_one_user_action and "
          "_bring_all_up_to_date" % PMAP, "exemptions taken while a user action's doc actions were "
          "applied are still in force when the bundle is recalculated", ok, fi=au.fi,
@@ -562,8 +627,10 @@ def r3_exemptions(run, w):
     oh = nodes_for(bcfg, outer)
     ob_ = nodes_of_stmts(bcfg, outer.body)
     prev = set()
+    n_prev_calls = 0
     for (n, c, nm) in bu.calls():
       if n.id in ob_ and E.is_engine_call("prevent_recalc")(c, nm, bu):
+        n_prev_calls += 1
         m = bind_call(c, prf) or {}
         a_node, a_rows, a_flag = m.get(pps[1]), m.get(pps[2]), m.get(pps[3])
         if a_node is not None and bex.norm(a_node) in ("%s.node" % colv, "%s.node" % bex.norm(wc.func.value)) \
@@ -576,6 +643,8 @@ def r3_exemptions(run, w):
     frb = Facts(bcfg, {key}, ex=bex)
     seen = frb.run([(m, {key: False}) for m in bcfg.normal_succ(wn.id)], stop=prev)
     # leave the inner row loop first: consider only arrivals at the outer loop head / exit
+    need(n_prev_calls, "DocActions.BulkUpdateRecord: no prevent_recalc call in the per-column "
+         "iteration that writes the values; where the exemption is taken cannot be followed")
     ok = bool(prev) and not (set(seen) & (oh | {bcfg.exit.id}))
     run.ob(R3, bu.qualname, "<col>.set(row, value) -> self._engine.prevent_recalc(<col>.node, "
            "row_ids, should_prevent=True)",
